@@ -607,6 +607,7 @@ class Executor:
         if cur is None:
             cur = self.raw_deref(st, key)
         st.heap[key] = self.update(st, cur, rest, nv)
+        st.events.append(("store", key, tuple((p[0], p[1]) if len(p) > 1 else (p[0],) for p in rest), nv))
 
     def readrest(self, st, v, rest):
         for p in rest:
@@ -1126,12 +1127,12 @@ class Executor:
                 ismut = ty.startswith("&mut") or (a[0] == "ref" and a[2])
                 if ismut:
                     nv = ("out", fs, i, xargs)
+                    n_ev = len(st.events)
                     if a[0] == "ref":
                         self.write_placekey(st, a[1], nv)
-                    elif a[0] == "boxraw":
-                        st.heap[a[1]] = nv
                     else:
-                        st.heap[a] = nv
+                        self.write_through(st, a, (), nv)
+                    del st.events[n_ev:]      # the havoc is part of the call, not a store of its own
             st.events.append(("call", fs, xargs, res))
         if dest is not None:
             self.write_placekey(st, (fr, func, dest[1], dest[2]), res)
